@@ -76,12 +76,14 @@ type xl struct {
 	recvOut  []*types.Var        // receiver fields the code assigns
 	oracleAt map[string]ast.Node // oracle text -> the one node it replaces
 	loops    int
+	lo, hi   token.Pos  // extent of the translated statements
+	body     []ast.Stmt // the translated statements
 	tmp      int
 }
 
 // identifiers the generated text uses itself; a Go variable of such a name gets a trailing underscore
 var xReserved = strings.Fields(`ctl Next Return Panic bindc go_call wrapU wrapS go_len go_nth go_in_range go_slice
- go_slice_ok go_bytes_eqb go_be_u16 go_be_u32 go_be_u64 go_emit_u8 go_emit_u16 go_emit_u32 go_emit_u64 go_range go_count
+ go_slice_ok go_bytes_eqb go_be_u16 go_be_u32 go_be_u64 go_emit_u8 go_emit_u16 go_emit_u32 go_emit_u64 go_range go_count go_map_get go_map_set go_make
  andb orb negb implb true false tt nil cons list unit bool Z N nat fst snd pair Bool eqb
  fun let in if then else match with end as return forall exists fix cofix Type Prop Set struct where at using for IF
  Definition Fixpoint Record Lemma Theorem out st`)
@@ -170,6 +172,11 @@ func (x *xl) coqType(n ast.Node, t types.Type) string {
 	if s, ok := t.Underlying().(*types.Slice); ok {
 		return "(list " + x.coqType(n, s.Elem()) + ")"
 	}
+	if m, ok := t.Underlying().(*types.Map); ok { // integer-keyed maps: association lists (iteration is outside the subset)
+		if _, _, ok := intType(m.Key()); ok {
+			return "(list (Z * " + x.coqType(n, m.Elem()) + "))"
+		}
+	}
 	if nm, ok := t.(*types.Named); ok {
 		if _, ok := nm.Underlying().(*types.Struct); ok {
 			return x.record(n, nm)
@@ -251,6 +258,15 @@ func (x *xl) field(e ast.Expr) *types.Var {
 func (x *xl) lvalue(e ast.Expr) *types.Var {
 	if f := x.field(e); f != nil {
 		return f
+	}
+	if ie, ok := e.(*ast.IndexExpr); ok { // m[k] = v sets the map variable
+		if _, isMap := x.typeOf(ie.X).Underlying().(*types.Map); isMap {
+			if id, isId := ie.X.(*ast.Ident); isId {
+				if v, isVar := x.info.ObjectOf(id).(*types.Var); isVar {
+					return v
+				}
+			}
+		}
 	}
 	id, ok := e.(*ast.Ident)
 	if !ok {
@@ -399,6 +415,9 @@ func (x *xl) expr(e ast.Expr, g *guards) string {
 		if _, isNil := x.info.ObjectOf(e).(*types.Nil); isNil {
 			return x.zero(e, x.typeOf(e))
 		}
+		if _, isMap := x.typeOf(e).Underlying().(*types.Map); isMap {
+			x.fail(e, "the map %s is used other than by m[k] and m[k] = v (maps are references: copies would alias)", e.Name)
+		}
 		return x.varName(e)
 	case *ast.UnaryExpr:
 		a := x.expr(e.X, g)
@@ -419,6 +438,9 @@ func (x *xl) expr(e ast.Expr, g *guards) string {
 		return x.call(e, g)
 	case *ast.IndexExpr:
 		t := x.typeOf(e.X)
+		if m, ok := t.Underlying().(*types.Map); ok {
+			return "(go_map_get " + x.mapVar(e) + " " + x.expr(e.Index, g) + " " + x.zero(e, m.Elem()) + ")"
+		}
 		l, i := x.expr(e.X, g), x.expr(e.Index, g)
 		*g = append(*g, "(go_in_range "+l+" "+i+")")
 		if isBytes(t) {
@@ -607,6 +629,12 @@ func (x *xl) call(e *ast.CallExpr, g *guards) string {
 				}
 				return "(go_len " + x.expr(e.Args[0], g) + ")"
 			}
+			if b.Name() == "make" {
+				return x.makeCall(e, g)
+			}
+			if b.Name() == "append" {
+				x.fail(e, "append is in the subset only as the statement  v = append(v, e...)")
+			}
 			x.fail(e, "builtin %s is outside the subset", b.Name())
 		}
 	}
@@ -625,6 +653,15 @@ func (x *xl) call(e *ast.CallExpr, g *guards) string {
 }
 
 func (x *xl) composite(e *ast.CompositeLit, g *guards) string {
+	if m, ok := x.typeOf(e).Underlying().(*types.Map); ok {
+		t := "(@nil (Z * " + x.coqType(e, m.Elem()) + "))"
+		x.coqType(e, x.typeOf(e))
+		for _, el := range e.Elts { // later duplicates are rejected by the compiler for constant keys
+			kv := el.(*ast.KeyValueExpr)
+			t = "(go_map_set " + t + " " + x.expr(kv.Key, g) + " " + x.expr(kv.Value, g) + ")"
+		}
+		return t
+	}
 	nm, ok := x.typeOf(e).(*types.Named)
 	if !ok {
 		x.fail(e, "composite literal of an unnamed type")
@@ -652,6 +689,81 @@ func (x *xl) composite(e *ast.CompositeLit, g *guards) string {
 		fs = append(fs, "\n      "+r+"_"+f.Name()+" := "+v)
 	}
 	return "{|" + strings.Join(fs, ";") + " |}"
+}
+
+// mapVar: the variable of an index expression m[k] on a map
+func (x *xl) mapVar(e *ast.IndexExpr) string {
+	id, ok := e.X.(*ast.Ident)
+	if !ok {
+		x.fail(e, "map expression %s: only a map variable can be indexed", x.src(e.X))
+	}
+	return x.varName(id)
+}
+
+// make([]T, n) / make([]T, n, c) / make(map[K]V): n zero values (make panics unless 0 <= n <= c) / the empty map
+func (x *xl) makeCall(e *ast.CallExpr, g *guards) string {
+	t := x.typeOf(e)
+	if _, ok := t.Underlying().(*types.Map); ok {
+		return x.zero(e, t)
+	}
+	sl, ok := t.Underlying().(*types.Slice)
+	if !ok || len(e.Args) < 2 {
+		x.fail(e, "make of %s is outside the subset", t)
+	}
+	n := x.expr(e.Args[1], g)
+	*g = append(*g, "(0 <=? "+n+")")
+	if len(e.Args) == 3 {
+		*g = append(*g, "("+n+" <=? "+x.expr(e.Args[2], g)+")")
+	}
+	z := x.zero(e, sl.Elem())
+	if isBytes(t) {
+		z = "0%N"
+	}
+	return "(go_make " + n + " " + z + ")"
+}
+
+// fresh: v is declared inside the translated statements and only ever holds values made there (zero value, make,
+// composite literal, append to itself), so no other slice shares its backing array and append acts on it as on a value
+func (x *xl) fresh(v *types.Var, at ast.Node) {
+	if !(x.lo <= v.Pos() && v.Pos() < x.hi) {
+		x.fail(at, "append to %s, which is not declared in the translated statements (it may share its array)", v.Name())
+	}
+	ok := func(r ast.Expr) bool {
+		switch r := r.(type) {
+		case *ast.CompositeLit:
+			return true
+		case *ast.Ident:
+			_, isNil := x.info.ObjectOf(r).(*types.Nil)
+			return isNil
+		case *ast.CallExpr:
+			if id, isId := r.Fun.(*ast.Ident); isId && len(r.Args) > 0 {
+				if a0, isId := r.Args[0].(*ast.Ident); id.Name == "append" && isId && x.info.ObjectOf(a0) == v {
+					return true
+				}
+				return id.Name == "make"
+			}
+		}
+		return false
+	}
+	for _, st := range x.body {
+		ast.Inspect(st, func(n ast.Node) bool {
+			switch n := n.(type) {
+			case *ast.AssignStmt:
+				for i, l := range n.Lhs {
+					if id, isId := l.(*ast.Ident); isId && x.info.ObjectOf(id) == v && (len(n.Lhs) != len(n.Rhs) || !ok(n.Rhs[i])) {
+						x.fail(n, "%s is appended to but also assigned a value that may share its array", v.Name())
+					}
+				}
+			case *ast.ValueSpec:
+				for i, id := range n.Names {
+					if x.info.ObjectOf(id) == v && len(n.Values) > 0 && (len(n.Values) != len(n.Names) || !ok(n.Values[i])) {
+						x.fail(n, "%s is appended to but also initialised with a value that may share its array", v.Name())
+					}
+				}
+			}
+			return true
+		})
+	}
 }
 
 // ---------- statements ----------
@@ -913,6 +1025,30 @@ func (x *xl) assign(s *ast.AssignStmt, rest func() string, d int) string {
 	if len(s.Lhs) != len(s.Rhs) {
 		x.fail(s, "assignment from a multi-valued expression is outside the subset")
 	}
+	if len(s.Lhs) == 1 && s.Tok == token.ASSIGN { // v = append(v, e...)
+		if c, ok := s.Rhs[0].(*ast.CallExpr); ok {
+			if id, ok := c.Fun.(*ast.Ident); ok && id.Name == "append" {
+				if _, isB := x.info.ObjectOf(id).(*types.Builtin); isB {
+					lv := x.lvalue(s.Lhs[0])
+					a0, isId := c.Args[0].(*ast.Ident)
+					if lv == nil || !isId || x.info.ObjectOf(a0) != lv || c.Ellipsis.IsValid() {
+						x.fail(s, "append is in the subset only as  v = append(v, e...)  on one variable")
+					}
+					x.fresh(lv, s)
+					n := x.varName(a0)
+					var es []string
+					for _, a := range c.Args[1:] {
+						el := x.expr(a, &g)
+						if isBytes(lv.Type()) {
+							el = "(Z.to_N " + el + ")"
+						}
+						es = append(es, el)
+					}
+					return guarded(g, "let "+n+" := "+n+" ++ ["+strings.Join(es, "; ")+"] in"+ind(d)+rest())
+				}
+			}
+		}
+	}
 	var ns, vs []string
 	for i, l := range s.Lhs {
 		lv := x.lvalue(l)
@@ -930,6 +1066,9 @@ func (x *xl) assign(s *ast.AssignStmt, rest func() string, d int) string {
 			be := &ast.BinaryExpr{X: l, OpPos: s.TokPos, Op: op, Y: s.Rhs[i]}
 			x.info.Types[be] = types.TypeAndValue{Type: x.typeOf(l)}
 			v = x.binary(be, &g)
+		}
+		if ie, ok := l.(*ast.IndexExpr); ok && lv != nil { // m[k] = v
+			v = "(go_map_set " + x.mapVar(ie) + " " + x.expr(ie.Index, &g) + " " + v + ")"
 		}
 		if lv == nil {
 			ns = append(ns, "_")
